@@ -14,6 +14,7 @@ import (
 	"math/big"
 	"os"
 	"reflect"
+	"runtime"
 	"bytes"
 )
 
@@ -162,8 +163,17 @@ func Oracle(name string, outLen int, args ...[]byte) []byte    { return Bytes("o
 func OracleInj(name string, outLen int, args ...[]byte) []byte { return Bytes("orc!"+name, outLen) }
 func OracleBool(name string, args ...[]byte) bool              { return Bool("orc!" + name) }
 
-func AllocBytes() int64 { return 0 }
-func ResetAlloc()       {}
+// Natively the allocation ghost counter is the runtime's cumulative allocation
+// counter (an over-approximation: it also counts small bookkeeping objects).
+var allocBase uint64
+
+func totalAlloc() uint64 {
+	var ms runtime.MemStats
+	runtime.ReadMemStats(&ms)
+	return ms.TotalAlloc
+}
+func AllocBytes() int64 { return int64(totalAlloc() - allocBase) }
+func ResetAlloc()       { allocBase = totalAlloc() }
 
 // Caught runs f and reports whether it panicked.
 func Caught(f func()) (panicked bool, kind string) {
